@@ -56,8 +56,9 @@ def render_batch(items, extra=None, prelude=""):
     extra = extra or {}
     w = ["import icontract\n", prelude, expr.GLOBALS_SRC,
          "class Holder:\n    def __init__(self, **kw):\n        self.__dict__.update(kw)\n    def __repr__(self):\n        return 'Holder()'\n",
-         "def make():\n    C = 5\n    CL = [1]\n    fs = {}\n"]
-    allp = ", ".join(expr.PARAMS)
+         "def make():\n    C = 5\n    CL = [1]\n    LATE = 1\n    fs = {}\n"]
+    # the functions also have parameters named like the globals G and GL (never parameters of a condition)
+    allp = ", ".join(expr.PARAMS + ["{}={!r}".format(k, v) for k, v in expr.SHADOWING_ARGS.items()])
     for idx, role, cond in items:
         if role == "invariant":
             w.append("    @icontract.invariant(lambda self: {}{})\n    class K{}(Holder):\n        pass\n    fs[{}] = K{}\n".format(cond, extra.get(idx, ""), idx, idx, idx))
@@ -65,7 +66,8 @@ def render_batch(items, extra=None, prelude=""):
             ps = ", ".join(expr.free_params(cond) + expr.own_default_params(cond))
             w.append("    @icontract.{}(lambda {}: {}{})\n    def f{}({}):\n        return 1\n    fs[{}] = f{}\n".format(
                 role, ps, cond, extra.get(idx, ""), idx, allp, idx, idx))
-    w.append("    return fs\nFS = make()\n")
+    # LATE is unbound again when the functions are called: a condition may name it only where Python does not read it
+    w.append("    del LATE\n    return fs\nFS = make()\n")
     return "".join(w)
 
 
@@ -107,11 +109,18 @@ def judge(cond, role, rec, msg, call_args, a_repr, strict_none=True):
             bad.append(("duplicate_line", text))
         shown[text] = val
         ok = False
-        if text in call_args and a_repr.repr(call_args[text]) == val:
-            ok = True
-        if not ok and text in texts:
+        if text in texts and text in expr.SHADOWING_ARGS and any(
+                i in rec.values and inf["text"] == text and not inf["in_fstring"] for i, inf in enumerate(rec.info)):
+            # (names evaluated only inside an f-string are not listed at all, KF-C06-2; the line is then the function argument)
+            # Python evaluated this name inside the condition, where it is the module global: that value counts, not the function
+            # argument of the same name (which the condition does not take as a parameter)
             ok = any(a_repr.repr(v) == val for v in texts[text])
-        if not ok and text not in texts and text not in call_args:
+        else:
+            if text in call_args and a_repr.repr(call_args[text]) == val:
+                ok = True
+            if not ok and text in texts:
+                ok = any(a_repr.repr(v) == val for v in texts[text])
+        if not ok and text not in texts and (text not in call_args or text in expr.SHADOWING_ARGS):
             # Sub-expressions written inside a comprehension which Python did not evaluate for this call (no iteration
             # reached them) but whose value is well defined: accepted iff the shown value is what evaluating that very
             # sub-expression in the environment of the call gives.
@@ -311,6 +320,7 @@ def check_batch(batch, acc, vals, level):
                     bad = judge(ctext, role, rec, str(exc), {"self": ns["Holder"]()}, a_repr)
                 else:
                     call_args = dict(val)
+                    call_args.update(expr.SHADOWING_ARGS)
                     if role == "ensure":
                         call_args["result"] = 1
                     bad = judge(ctext, role, rec, str(exc), call_args, a_repr)
